@@ -88,6 +88,10 @@ class TypeState:
     # threading this through all callsites (see also comment for TypeInfo.assuming).
     _assuming: Final[list[tuple[Type, Type]]]
     _assuming_proper: Final[list[tuple[Type, Type]]]
+    # Number of structural (protocol) subtype checks in progress, and whether one of their
+    # assumptions (see TypeInfo.assuming) has been relied on since the outermost one started.
+    protocol_check_depth: int
+    protocol_assumption_used: bool
     # Ditto for inference of generic constraints against recursive type aliases.
     inferring: Final[list[tuple[Type, Type]]]
     # Whether to use joins or unions when solving constraints, see checkexpr.py for details.
@@ -110,6 +114,8 @@ class TypeState:
         self._rechecked_types = set()
         self._assuming = []
         self._assuming_proper = []
+        self.protocol_check_depth = 0
+        self.protocol_assumption_used = False
         self.inferring = []
         self.infer_unions = False
         self.infer_polymorphic = False
@@ -197,7 +203,7 @@ class TypeState:
         ):
             # Variance indeterminate -- don't know the result
             return
-        if self._assuming or self._assuming_proper:
+        if self._assuming or self._assuming_proper or self.protocol_assumption_used:
             # The result may depend on an assumption about recursive types that
             # is still being verified (and may turn out to be wrong).
             return
